@@ -22,6 +22,8 @@ pub struct RecCfg {
     pub stop_after: Option<usize>,
     /// use parallel_*_init
     pub init: bool,
+    /// (only without init) use the generic `parallel_records` instead of the macro-generated function
+    pub generic: bool,
     pub reader_init_fails: bool,
     pub rset_fail_at: Option<u64>,
     pub rec_fail_at: Option<u64>,
@@ -139,6 +141,7 @@ pub fn sequential(cfg: &RecCfg, text: &[u8]) -> (u64, Option<String>) {
 pub fn rec_cfg_json(cfg: &RecCfg, o: &mut common::JObj) {
     o.s("kind", "rec");
     let api = match (cfg.fastq, cfg.init) {
+        (_, false) if cfg.generic => "parallel_records",
         (true, false) => "parallel_fastq",
         (true, true) => "parallel_fastq_init",
         (false, false) => "parallel_fasta",
@@ -167,7 +170,35 @@ macro_rules! rec_case_body {
         let count = std::cell::Cell::new(0usize);
         let stop = $cfg.stop_after;
         let reader = seq_io::$fmt::Reader::with_capacity(FailRead::new($text.clone(), $cfg.io_fail_at), $cfg.cap);
-        let ret: String = if !$cfg.init {
+        let ret: String = if !$cfg.init && $cfg.generic {
+            let r = par::parallel_records(
+                reader,
+                $cfg.n,
+                $cfg.q,
+                |rec: seq_io::$fmt::RefRecord, d: &mut u64| {
+                    jitter(1);
+                    use seq_io::$fmt::Record;
+                    let s = $seq(&rec);
+                    *d = common::rec_out(rec.id_bytes(), &s);
+                },
+                |rec: seq_io::$fmt::RefRecord, d: &u64| {
+                    jitter(2);
+                    use seq_io::$fmt::Record;
+                    seen.borrow_mut().push((String::from_utf8_lossy(rec.id_bytes()).to_string(), *d));
+                    count.set(count.get() + 1);
+                    if stop == Some(count.get()) {
+                        Some(count.get())
+                    } else {
+                        None
+                    }
+                },
+            );
+            match r {
+                Ok(None) => "Ok:None".to_string(),
+                Ok(Some(j)) => format!("Ok:Some:{}", j),
+                Err(e) => format!("Err:Parse:{:?}", e),
+            }
+        } else if !$cfg.init {
             let r = par::$plain(
                 reader,
                 $cfg.n,
@@ -265,6 +296,26 @@ macro_rules! rec_case_body {
     }};
 }
 
+/// the largest number of records one record set holds when the input is read set by set with the same reader
+/// configuration (the reader is deterministic, so these are the sets the parallel run works on)
+pub fn max_set_len(cfg: &RecCfg, text: &[u8]) -> u64 {
+    let mut m = 0u64;
+    if cfg.fastq {
+        let mut r = seq_io::fastq::Reader::with_capacity(FailRead::new(text.to_vec(), cfg.io_fail_at), cfg.cap);
+        let mut set = seq_io::fastq::RecordSet::default();
+        while let Some(Ok(())) = r.read_record_set(&mut set) {
+            m = m.max(set.len() as u64);
+        }
+    } else {
+        let mut r = seq_io::fasta::Reader::with_capacity(FailRead::new(text.to_vec(), cfg.io_fail_at), cfg.cap);
+        let mut set = seq_io::fasta::RecordSet::default();
+        while let Some(Ok(())) = r.read_record_set(&mut set) {
+            m = m.max(set.len() as u64);
+        }
+    }
+    m
+}
+
 /// runs one per-record case to completion and returns the JSON fields of the observation
 /// (without status; the caller adds it)
 pub fn run_rec_case(cfg: &RecCfg) -> common::JObj {
@@ -287,5 +338,6 @@ pub fn run_rec_case(cfg: &RecCfg) -> common::JObj {
     o.u("seq_n", seq_n);
     o.raw("seq_err", common::jopt_s(&seq_err));
     o.u("reader_init_calls", c_ri).u("rset_init_calls", c_rs).u("rec_init_calls", c_rd);
+    o.u("max_set", max_set_len(cfg, &text));
     o
 }
